@@ -871,6 +871,10 @@ func (t *Terminal) saveCursor() {
 }
 
 func (t *Terminal) restoreCursor() {
+	// an open hyperlink (OSC 8) is no rendition DECSC/DECRC know about: it
+	// stays as it is until it is closed
+	link, lp := t.Pen.Link, t.Pen.LinkParams
+	defer func() { t.Pen.Link, t.Pen.LinkParams = link, lp }()
 	if t.cur.saved == nil {
 		t.R, t.C, t.Pen = 0, 0, Style{}
 	} else {
